@@ -19,6 +19,8 @@ def gen(rng, tier):
     for t in range(n):
         cls = CLASSES[t % 4]
         ns, nv = rng.choice([1, 2, 3, 4, 4, 5, 6]), rng.randint(1, 4)
+        if rng.random() < 0.05:
+            ns, nv = rng.choice([17, 20, 25, 33, 40]), rng.randint(3, 20)  # medium sizes
         clean = rng.random() < 0.35  # mostly-valid stream: few offenders
         pool = [0, 0, 1, 1] + ([rng.choice(ALLELES)] if clean else ALLELES)
         if cls == "GenotypesAncestry":
